@@ -51,6 +51,16 @@ def whole_column(ctx, repo):
     ctx.floor("W2", 15)
     group_id_arithmetic(ctx, repo, "W5")
     index_spaces(ctx, repo, "IX")
+    from ._wholecol import pointer_findings
+
+    ctx.rule("W6", "inside a row loop an element of a pointer column (-1 = nobody) indexes an array or list only under a guard excluding negative values (dictionaries are safe)")
+    ctx.rule("W7", "a whole-column rule whose result is data does not read, inside the loop that fills a mapping, the entry of the row a pointer refers to (forward references depend on the row order)")
+    for mod, fd, kind in fns:
+        fs = list(pointer_findings(mod, fd, kind))
+        for rid in ("W6", "W7"):
+            ctx.ob(rid, ok=not [f for f in fs if f[0] == rid], distinct=(mod.rel, fd.name))
+        for rid, key, ln, msg in fs:
+            ctx.violation(rid, f"{mod.rel}:{fd.name}|{key}", f"src/_gettsim/{mod.rel}:{ln} {fd.name}", msg)
 
 
 def group_id_arithmetic(ctx, repo, rid):
